@@ -18,6 +18,8 @@ pub enum Op {
     SetClassic(bool),
     Load(u16),
     EarnedAck,
+    /// k earned ACKs (each followed by the global +1) on a loaded link (in-flight topped up to >= 80)
+    AckBurst(u16),
     AckWithInFlight(i32),
     GlobalAck,
     Nak,
@@ -63,6 +65,7 @@ fn op() -> impl Strategy<Value = Op> {
         1 => any::<bool>().prop_map(Op::SetClassic),
         3 => (1u16..80).prop_map(Op::Load),
         8 => Just(Op::EarnedAck),
+        3 => prop_oneof![2 => 5u16..120, 2 => 1300u16..2300, 1 => 100u16..1400].prop_map(Op::AckBurst),
         4 => in_flight_edge().prop_map(Op::AckWithInFlight),
         4 => Just(Op::GlobalAck),
         6 => Just(Op::Nak),
@@ -108,7 +111,7 @@ pub fn check(case: &Case, obs: &mut Obs) -> CheckResult {
         // kind tag for the non-triviality rule
         let kind: u8 = match op {
             Op::Advance(_) | Op::SetClassic(_) | Op::Load(_) | Op::RttSample(_) | Op::CumAck | Op::NakUnknown => 0,
-            Op::EarnedAck | Op::AckWithInFlight(_) => 1,
+            Op::EarnedAck | Op::AckWithInFlight(_) | Op::AckBurst(_) => 1,
             Op::GlobalAck => 2,
             Op::Nak | Op::NakBurst(_) => 3,
             Op::RecoveryTick => 4,
@@ -145,6 +148,28 @@ pub fn check(case: &Case, obs: &mut Obs) -> CheckResult {
                 s.c.register_packet(seq, s.now);
                 let found = s.c.handle_srtla_ack_specific(seq, s.classic, s.now);
                 vensure!(found, "ack-not-found", "op {i}: registered seq not found by SRTLA ACK");
+                Dir::Up
+            }
+            Op::AckBurst(k) => {
+                while s.c.in_flight_packets < 80 {
+                    s.c.register_packet(s.next_seq, s.now);
+                    s.next_seq += 1;
+                }
+                for j in 0..*k {
+                    let seq = s.next_seq;
+                    s.next_seq += 1;
+                    s.c.register_packet(seq, s.now);
+                    let b0 = s.c.window;
+                    s.c.handle_srtla_ack_specific(seq, s.classic, s.now);
+                    let b1 = s.c.window;
+                    vensure!((1000..=60_000).contains(&b1) && b1 >= b0, "ack-step", "op {i} ack {j} of burst: earned ACK moved window {} -> {}", b0, b1);
+                    s.c.handle_srtla_ack_global();
+                    let b2 = s.c.window;
+                    vensure!((1000..=60_000).contains(&b2) && b2 >= b1, "ack-step", "op {i} ack {j} of burst: global ACK moved window {} -> {}", b1, b2);
+                    if b2 == 60_000 {
+                        touched_bound = true;
+                    }
+                }
                 Dir::Up
             }
             Op::AckWithInFlight(x) => {
